@@ -97,6 +97,14 @@ def check_tps(tp, c):
     if mb.shape != (2,) + exp.shape or not np.allclose(mb[0], mean, rtol=0, atol=1e-9 * scale) \
             or not np.allclose(mb[1], 4 * mean, rtol=0, atol=4e-9 * scale):
         bad.append(("temporalps:batch-axis", dict(got=mb.tolist())))
+    # leading axes of length one stay: (1, frames, subaps) -> (1, n/2); (2, 1, frames, subaps) -> (2, 1, n/2)
+    for lead in ((1,), (2, 1), (1, 1)):
+        cube1 = np.broadcast_to(x, lead + x.shape).copy()
+        m1, e1 = tp.calc_slope_temporalps(cube1)
+        m1, e1 = np.asarray(m1, float), np.asarray(e1, float)
+        if m1.shape != lead + mean.shape or e1.shape != m1.shape or not np.allclose(m1, np.broadcast_to(mean, lead + mean.shape), rtol=0, atol=1e-9 * scale):
+            bad.append(("temporalps:batch-axis:leading-axis-of-length-one", dict(lead=list(lead), shape=list(m1.shape), expected_shape=list(lead + mean.shape))))
+            break
     # two leading axes (sensor, slope direction), equal and unequal extents: entry [a, b] is the spectrum of slope_data[a, b]
     for A, B in ((2, 3), (2, 2)):
         fac = 1.0 + np.arange(A * B).reshape(A, B)
@@ -125,6 +133,23 @@ def check_sf_dtype_order(sc):
     return bad
 
 
+def check_sf_wide(sc):
+    """screens wider than 1024 columns (widths that are not multiples of 1024, 256, 64), a ramp whose slope differs per column: the
+    definition is the mean over ALL columns"""
+    bad = []
+    for rows, cols in ((5, 1100), (4, 1500), (6, 300), (3, 2500)):
+        a = 0.5 + (np.arange(cols) % 7) + 3.0 * (np.arange(cols) >= (cols // 1024) * 1024 if cols > 1024 else np.arange(cols) >= (cols // 256) * 256)
+        ph = np.arange(rows, dtype=float)[:, None] * a[None, :]
+        got = np.asarray(sc.calculate_structure_function(ph.copy()), float)
+        nl = len(got)
+        law = np.array([np.mean(a ** 2) * j ** 2 if j < rows else np.nan for j in range(nl)])
+        okv = ~np.isnan(law) & ~np.isnan(got)
+        if not np.allclose(got[okv], law[okv], rtol=1e-12, atol=1e-12) or (np.isnan(got) != np.isnan(law))[:rows].any():
+            bad.append(("structure_function:lag-value:wide-screen", dict(shape=[rows, cols], got=got[:rows].tolist(), expected=law[:rows].tolist())))
+            break
+    return bad
+
+
 def check_general_n(tp, rng):
     """frame counts outside the model's exact ones (2, 4, 8): the definition evaluated as a literal DFT in float64 (auxiliary)"""
     bad = []
@@ -139,7 +164,7 @@ def check_general_n(tp, rng):
         got = np.asarray(tp.calc_slope_temporalps(x.copy())[0], float)
         n_cases += 1
         if got.shape != want.shape or not np.allclose(got, want, rtol=1e-9, atol=1e-9):
-            bad.append(("temporalps:value:n_frames=%d" % n, dict(n=n, got=got.tolist()[:6], expected=want.tolist()[:6])))
+            bad.append(("temporalps:value:n_frames=%d" % n, dict(n=n, got=np.ravel(got).tolist()[:6], expected=want.tolist()[:6], got_shape=list(np.shape(got)))))
             break
         # a sinusoid exactly on bin k0 peaks there and is labelled with its own frequency
         if n >= 6:
@@ -217,6 +242,8 @@ def run(run):
                     run.violation(key, detail, c)
             for key, detail in check_sf_dtype_order(sc):
                 run.violation(key, detail, dict(kind="dtype-order"))
+            for key, detail in check_sf_wide(sc):
+                run.violation(key, detail, dict(kind="wide"))
             badg, n_gen = check_general_n(tp, np.random.default_rng(run.seed))
             for key, detail in badg:
                 run.violation(key, detail, dict(kind="general-n"))
@@ -241,6 +268,8 @@ def replay(run, case):
                 bad = check_sf(sc, case)
             elif case["kind"] == "tps":
                 bad = check_tps(tp, case)
+            elif case["kind"] == "wide":
+                bad = check_sf_wide(sc)
             elif case["kind"] == "dtype-order":
                 bad = check_sf_dtype_order(sc)
             elif case["kind"] == "general-n":
